@@ -34,6 +34,77 @@ pub trait H {
   fn convert(self: Box<Self>, to_async: bool) -> Result<Box<dyn H>, Box<dyn H>>;
   /// ops that consume the handle (oneshot `send`)
   fn consume(self: Box<Self>, _op: &Op) -> Result<String, Box<dyn H>>;
+  /// Is the wrapped fibre type `Sync` (may several threads call its `&self` methods at once)?
+  fn is_sync(&self) -> bool {
+    false
+  }
+  /// Shared-handle call: the op through a plain `&T` (only forms whose method takes `&self`); `None` = the form
+  /// needs `&mut self` on this type, or does not exist.
+  fn call_shared(&self, _op: &Op) -> Option<String> {
+    None
+  }
+  fn is_shared(&self) -> bool {
+    false
+  }
+  /// another reference to a shared handle
+  fn share_ref(&self) -> Option<Box<dyn H>> {
+    None
+  }
+}
+
+/// compile-time `T: Sync` test for concrete types (inherent associated const shadows the blanket trait const)
+pub trait NotSyncDefault {
+  const IS_SYNC: bool = false;
+}
+impl<T: ?Sized> NotSyncDefault for T {}
+pub struct SyncProbe<T: ?Sized>(std::marker::PhantomData<T>);
+#[allow(dead_code)]
+impl<T: ?Sized + Sync> SyncProbe<T> {
+  pub const IS_SYNC: bool = true;
+}
+
+/// A handle shared by several threads (`share h` in `P 0`): every thread that names it holds one of these. Only
+/// `&self` forms are offered (`call_shared`); `drop` / conversions / consuming forms are refused while it is shared.
+pub struct SharedH(pub std::sync::Arc<SharedBox>);
+pub struct SharedBox(pub Box<dyn H>);
+// the baton discipline runs one scheduler thread at a time; the wrapped type is `Sync` (checked by `share`)
+unsafe impl Send for SharedBox {}
+unsafe impl Sync for SharedBox {}
+
+impl H for SharedH {
+  fn side(&self) -> char {
+    self.0 .0.side()
+  }
+  fn is_async(&self) -> bool {
+    self.0 .0.is_async()
+  }
+  fn mut_api(&self) -> bool {
+    false
+  }
+  fn call(&self, op: &Op) -> String {
+    self.0 .0.call_shared(op).unwrap_or_else(|| "unsupported".to_string())
+  }
+  fn make_fut(&self, _op: &Op) -> Option<BoxFut> {
+    None
+  }
+  fn clone_h(&self) -> Option<Box<dyn H>> {
+    self.0 .0.clone_h()
+  }
+  fn convert(self: Box<Self>, _to_async: bool) -> Result<Box<dyn H>, Box<dyn H>> {
+    Err(self)
+  }
+  fn consume(self: Box<Self>, _op: &Op) -> Result<String, Box<dyn H>> {
+    Err(self)
+  }
+  fn is_sync(&self) -> bool {
+    true
+  }
+  fn is_shared(&self) -> bool {
+    true
+  }
+  fn share_ref(&self) -> Option<Box<dyn H>> {
+    Some(Box::new(SharedH(self.0.clone())))
+  }
 }
 
 pub struct W<T>(UnsafeCell<T>);
@@ -446,7 +517,25 @@ macro_rules! f_brecv {
 
 macro_rules! imp {
   ($ty:ty, $side:expr, $asyn:expr, $mutapi:ident, [$($g:ident),*], [$($f:ident),*], clone: $cl:expr, conv: $cv:expr) => {
+    imp!($ty, $side, $asyn, $mutapi, [$($g),*], [$($f),*], clone: $cl, conv: $cv, shared: []);
+  };
+  ($ty:ty, $side:expr, $asyn:expr, $mutapi:ident, [$($g:ident),*], [$($f:ident),*], clone: $cl:expr, conv: $cv:expr, shared: [$($sg:ident),*]) => {
     impl H for W<$ty> {
+      fn is_sync(&self) -> bool {
+        #[allow(unused_imports)]
+        use crate::handles::NotSyncDefault;
+        <SyncProbe<$ty>>::IS_SYNC
+      }
+      #[allow(unused_variables)]
+      fn call_shared(&self, op: &Op) -> Option<String> {
+        if !self.is_sync() {
+          return None;
+        }
+        // plain shared reference: compiles only for methods that take `&self`
+        let h: &$ty = unsafe { &*self.0.get() };
+        $( if let Some(r) = $sg!(h, op) { return Some(r); } )*
+        None
+      }
       fn side(&self) -> char { $side }
       fn is_async(&self) -> bool { $asyn }
       fn mut_api(&self) -> bool { imp!(@bool $mutapi) }
@@ -496,91 +585,91 @@ fn no_clone<T>(_: &T) -> Option<Box<dyn H>> {
 
 // ---------------------------------------------------------------- spsc
 imp!(spsc::BoundedSyncSender<V>, 's', false, mutyes, [g_send_sync, g_bsend_sync, g_probe, g_cap], [],
-  clone: no_clone, conv: |h, ta| if ta { Ok(boxed(h.to_async())) } else { Err(h) });
+  clone: no_clone, conv: |h, ta| if ta { Ok(boxed(h.to_async())) } else { Err(h) }, shared: [g_send_sync, g_bsend_sync, g_probe, g_cap]);
 imp!(spsc::BoundedSyncReceiver<V>, 'r', false, mutyes, [g_recv_sync, g_timeout, g_brecv_sync, g_probe, g_cap], [],
-  clone: no_clone, conv: |h, ta| if ta { Ok(boxed(h.to_async())) } else { Err(h) });
+  clone: no_clone, conv: |h, ta| if ta { Ok(boxed(h.to_async())) } else { Err(h) }, shared: [g_probe, g_cap]);
 imp!(spsc::BoundedAsyncSender<V>, 's', true, mutyes, [g_send_async, g_bsend_async, g_probe, g_cap], [f_send, f_bsend],
-  clone: no_clone, conv: |h, ta| if !ta { Ok(boxed(h.to_sync())) } else { Err(h) });
+  clone: no_clone, conv: |h, ta| if !ta { Ok(boxed(h.to_sync())) } else { Err(h) }, shared: [g_probe, g_cap]);
 imp!(spsc::BoundedAsyncReceiver<V>, 'r', true, mutyes, [g_recv_async, g_brecv_async, g_probe, g_cap], [f_recv, f_brecv],
-  clone: no_clone, conv: |h, ta| if !ta { Ok(boxed(h.to_sync())) } else { Err(h) });
+  clone: no_clone, conv: |h, ta| if !ta { Ok(boxed(h.to_sync())) } else { Err(h) }, shared: [g_probe, g_cap]);
 
 // ---------------------------------------------------------------- mpsc bounded (v3)
 imp!(mpsc::BoundedSyncSender<V>, 's', false, mutyes, [g_send_sync, g_bsend_sync, g_probe, g_cap], [],
-  clone: |h| Some(boxed(h.clone())), conv: |h, ta| if ta { Ok(boxed(h.to_async())) } else { Err(h) });
+  clone: |h| Some(boxed(h.clone())), conv: |h, ta| if ta { Ok(boxed(h.to_async())) } else { Err(h) }, shared: [g_send_sync, g_bsend_sync, g_probe, g_cap]);
 imp!(mpsc::BoundedSyncReceiver<V>, 'r', false, mutyes, [g_recv_sync, g_timeout, g_brecv_sync, g_probe, g_cap], [],
-  clone: no_clone, conv: |h, ta| if ta { Ok(boxed(h.to_async())) } else { Err(h) });
+  clone: no_clone, conv: |h, ta| if ta { Ok(boxed(h.to_async())) } else { Err(h) }, shared: [g_recv_sync, g_timeout, g_brecv_sync, g_probe, g_cap]);
 imp!(mpsc::BoundedAsyncSender<V>, 's', true, mutno, [g_send_async, g_bsend_async, g_probe, g_cap], [f_send, f_bsend],
-  clone: |h| Some(boxed(h.clone())), conv: |h, ta| if !ta { Ok(boxed(h.to_sync())) } else { Err(h) });
+  clone: |h| Some(boxed(h.clone())), conv: |h, ta| if !ta { Ok(boxed(h.to_sync())) } else { Err(h) }, shared: [g_send_async, g_bsend_async, g_probe, g_cap]);
 imp!(mpsc::BoundedAsyncReceiver<V>, 'r', true, mutno, [g_recv_async, g_brecv_async, g_probe, g_cap], [f_recv, f_brecv],
-  clone: no_clone, conv: |h, ta| if !ta { Ok(boxed(h.to_sync())) } else { Err(h) });
+  clone: no_clone, conv: |h, ta| if !ta { Ok(boxed(h.to_sync())) } else { Err(h) }, shared: [g_recv_async, g_brecv_async, g_probe, g_cap]);
 
 // ---------------------------------------------------------------- mpsc unbounded (v3)
 imp!(mpsc::UnboundedSyncSender<V>, 's', false, mutyes, [g_send_sync, g_bsend_sync, g_probe, g_scount], [],
-  clone: |h| Some(boxed(h.clone())), conv: |h, ta| if ta { Ok(boxed(h.to_async())) } else { Err(h) });
+  clone: |h| Some(boxed(h.clone())), conv: |h, ta| if ta { Ok(boxed(h.to_async())) } else { Err(h) }, shared: [g_scount]);
 imp!(mpsc::UnboundedSyncReceiver<V>, 'r', false, mutyes, [g_recv_sync, g_timeout, g_brecv_sync, g_probe, g_scount], [],
-  clone: no_clone, conv: |h, ta| if ta { Ok(boxed(h.to_async())) } else { Err(h) });
+  clone: no_clone, conv: |h, ta| if ta { Ok(boxed(h.to_async())) } else { Err(h) }, shared: [g_recv_sync, g_timeout, g_brecv_sync, g_probe, g_scount]);
 imp!(mpsc::UnboundedAsyncSender<V>, 's', true, mutyes, [g_send_async, g_bsend_async, g_probe, g_scount], [f_send, f_bsend],
-  clone: |h| Some(boxed(h.clone())), conv: |h, ta| if !ta { Ok(boxed(h.to_sync())) } else { Err(h) });
+  clone: |h| Some(boxed(h.clone())), conv: |h, ta| if !ta { Ok(boxed(h.to_sync())) } else { Err(h) }, shared: [g_scount]);
 imp!(mpsc::UnboundedAsyncReceiver<V>, 'r', true, mutyes, [g_recv_async, g_brecv_async, g_probe, g_scount], [f_recv, f_brecv],
-  clone: no_clone, conv: |h, ta| if !ta { Ok(boxed(h.to_sync())) } else { Err(h) });
+  clone: no_clone, conv: |h, ta| if !ta { Ok(boxed(h.to_sync())) } else { Err(h) }, shared: [g_probe, g_scount]);
 
 // ---------------------------------------------------------------- mpmc bounded (v2)
 imp!(mpmc::Sender<V>, 's', false, mutyes, [g_send_sync, g_bsend_sync, g_probe, g_cap], [],
-  clone: |h| Some(boxed(h.clone())), conv: |h, ta| if ta { Ok(boxed(h.to_async())) } else { Err(h) });
+  clone: |h| Some(boxed(h.clone())), conv: |h, ta| if ta { Ok(boxed(h.to_async())) } else { Err(h) }, shared: [g_send_sync, g_bsend_sync, g_probe, g_cap]);
 imp!(mpmc::Receiver<V>, 'r', false, mutyes, [g_recv_sync, g_timeout, g_brecv_sync, g_probe, g_cap], [],
-  clone: |h| Some(boxed(h.clone())), conv: |h, ta| if ta { Ok(boxed(h.to_async())) } else { Err(h) });
+  clone: |h| Some(boxed(h.clone())), conv: |h, ta| if ta { Ok(boxed(h.to_async())) } else { Err(h) }, shared: [g_recv_sync, g_timeout, g_brecv_sync, g_probe, g_cap]);
 imp!(mpmc::AsyncSender<V>, 's', true, mutno, [g_send_async, g_bsend_async, g_probe, g_cap], [f_send, f_bsend],
-  clone: |h| Some(boxed(h.clone())), conv: |h, ta| if !ta { Ok(boxed(h.to_sync())) } else { Err(h) });
+  clone: |h| Some(boxed(h.clone())), conv: |h, ta| if !ta { Ok(boxed(h.to_sync())) } else { Err(h) }, shared: [g_send_async, g_bsend_async, g_probe, g_cap]);
 imp!(mpmc::AsyncReceiver<V>, 'r', true, mutno, [g_recv_async, g_brecv_async, g_probe, g_cap], [f_recv, f_brecv],
-  clone: |h| Some(boxed(h.clone())), conv: |h, ta| if !ta { Ok(boxed(h.to_sync())) } else { Err(h) });
+  clone: |h| Some(boxed(h.clone())), conv: |h, ta| if !ta { Ok(boxed(h.to_sync())) } else { Err(h) }, shared: [g_recv_async, g_brecv_async, g_probe, g_cap]);
 
 // ---------------------------------------------------------------- mpmc unbounded
 imp!(mpmc::UnboundedSyncSender<V>, 's', false, mutyes, [g_send_sync, g_bsend_sync, g_probe, g_cap, g_scount], [],
-  clone: |h| Some(boxed(h.clone())), conv: |h, ta| if ta { Ok(boxed(h.to_async())) } else { Err(h) });
+  clone: |h| Some(boxed(h.clone())), conv: |h, ta| if ta { Ok(boxed(h.to_async())) } else { Err(h) }, shared: [g_cap, g_scount]);
 imp!(mpmc::UnboundedSyncReceiver<V>, 'r', false, mutyes, [g_recv_sync, g_timeout, g_brecv_sync, g_probe, g_cap, g_scount], [],
-  clone: |h| Some(boxed(h.clone())), conv: |h, ta| if ta { Ok(boxed(h.to_async())) } else { Err(h) });
+  clone: |h| Some(boxed(h.clone())), conv: |h, ta| if ta { Ok(boxed(h.to_async())) } else { Err(h) }, shared: [g_probe, g_cap, g_scount]);
 imp!(mpmc::UnboundedAsyncSender<V>, 's', true, mutyes, [g_send_async, g_bsend_async, g_probe, g_cap, g_scount], [f_send, f_bsend],
-  clone: |h| Some(boxed(h.clone())), conv: |h, ta| if !ta { Ok(boxed(h.to_sync())) } else { Err(h) });
+  clone: |h| Some(boxed(h.clone())), conv: |h, ta| if !ta { Ok(boxed(h.to_sync())) } else { Err(h) }, shared: [g_cap, g_scount]);
 imp!(mpmc::UnboundedAsyncReceiver<V>, 'r', true, mutyes, [g_recv_async, g_brecv_async, g_probe, g_cap, g_scount], [f_recv, f_brecv],
-  clone: |h| Some(boxed(h.clone())), conv: |h, ta| if !ta { Ok(boxed(h.to_sync())) } else { Err(h) });
+  clone: |h| Some(boxed(h.clone())), conv: |h, ta| if !ta { Ok(boxed(h.to_sync())) } else { Err(h) }, shared: [g_probe, g_cap, g_scount]);
 
 // ---------------------------------------------------------------- rendezvous
 imp!(spsc::RendezvousSyncSender<V>, 's', false, mutyes, [g_send_sync, g_probe, g_capopt], [],
-  clone: no_clone, conv: |h, ta| if ta { Ok(boxed(h.to_async())) } else { Err(h) });
+  clone: no_clone, conv: |h, ta| if ta { Ok(boxed(h.to_async())) } else { Err(h) }, shared: [g_send_sync, g_probe, g_capopt]);
 imp!(spsc::RendezvousSyncReceiver<V>, 'r', false, mutyes, [g_recv_sync, g_timeout, g_probe, g_capopt], [],
-  clone: no_clone, conv: |h, ta| if ta { Ok(boxed(h.to_async())) } else { Err(h) });
+  clone: no_clone, conv: |h, ta| if ta { Ok(boxed(h.to_async())) } else { Err(h) }, shared: [g_recv_sync, g_timeout, g_probe, g_capopt]);
 imp!(spsc::RendezvousAsyncSender<V>, 's', true, mutno, [g_send_async, g_probe, g_capopt], [f_send],
-  clone: no_clone, conv: |h, ta| if !ta { Ok(boxed(h.to_sync())) } else { Err(h) });
+  clone: no_clone, conv: |h, ta| if !ta { Ok(boxed(h.to_sync())) } else { Err(h) }, shared: [g_send_async, g_probe, g_capopt]);
 imp!(spsc::RendezvousAsyncReceiver<V>, 'r', true, mutno, [g_recv_async, g_probe, g_capopt], [f_recv],
-  clone: no_clone, conv: |h, ta| if !ta { Ok(boxed(h.to_sync())) } else { Err(h) });
+  clone: no_clone, conv: |h, ta| if !ta { Ok(boxed(h.to_sync())) } else { Err(h) }, shared: [g_recv_async, g_probe, g_capopt]);
 
 imp!(mpsc::RendezvousSyncSender<V>, 's', false, mutyes, [g_send_sync, g_probe, g_capopt], [],
-  clone: |h| Some(boxed(h.clone())), conv: |h, ta| if ta { Ok(boxed(h.to_async())) } else { Err(h) });
+  clone: |h| Some(boxed(h.clone())), conv: |h, ta| if ta { Ok(boxed(h.to_async())) } else { Err(h) }, shared: [g_send_sync, g_probe, g_capopt]);
 imp!(mpsc::RendezvousSyncReceiver<V>, 'r', false, mutyes, [g_recv_sync, g_timeout, g_probe, g_capopt], [],
-  clone: no_clone, conv: |h, ta| if ta { Ok(boxed(h.to_async())) } else { Err(h) });
+  clone: no_clone, conv: |h, ta| if ta { Ok(boxed(h.to_async())) } else { Err(h) }, shared: [g_recv_sync, g_timeout, g_probe, g_capopt]);
 imp!(mpsc::RendezvousAsyncSender<V>, 's', true, mutno, [g_send_async, g_probe, g_capopt], [f_send],
-  clone: |h| Some(boxed(h.clone())), conv: |h, ta| if !ta { Ok(boxed(h.to_sync())) } else { Err(h) });
+  clone: |h| Some(boxed(h.clone())), conv: |h, ta| if !ta { Ok(boxed(h.to_sync())) } else { Err(h) }, shared: [g_send_async, g_probe, g_capopt]);
 imp!(mpsc::RendezvousAsyncReceiver<V>, 'r', true, mutno, [g_recv_async, g_probe, g_capopt], [f_recv],
-  clone: no_clone, conv: |h, ta| if !ta { Ok(boxed(h.to_sync())) } else { Err(h) });
+  clone: no_clone, conv: |h, ta| if !ta { Ok(boxed(h.to_sync())) } else { Err(h) }, shared: [g_recv_async, g_probe, g_capopt]);
 
 imp!(mpmc::RendezvousSyncSender<V>, 's', false, mutyes, [g_send_sync, g_probe, g_capopt], [],
-  clone: |h| Some(boxed(h.clone())), conv: |h, ta| if ta { Ok(boxed(h.to_async())) } else { Err(h) });
+  clone: |h| Some(boxed(h.clone())), conv: |h, ta| if ta { Ok(boxed(h.to_async())) } else { Err(h) }, shared: [g_send_sync, g_probe, g_capopt]);
 imp!(mpmc::RendezvousSyncReceiver<V>, 'r', false, mutyes, [g_recv_sync, g_timeout, g_probe, g_capopt], [],
-  clone: |h| Some(boxed(h.clone())), conv: |h, ta| if ta { Ok(boxed(h.to_async())) } else { Err(h) });
+  clone: |h| Some(boxed(h.clone())), conv: |h, ta| if ta { Ok(boxed(h.to_async())) } else { Err(h) }, shared: [g_recv_sync, g_timeout, g_probe, g_capopt]);
 imp!(mpmc::RendezvousAsyncSender<V>, 's', true, mutno, [g_send_async, g_probe, g_capopt], [f_send],
-  clone: |h| Some(boxed(h.clone())), conv: |h, ta| if !ta { Ok(boxed(h.to_sync())) } else { Err(h) });
+  clone: |h| Some(boxed(h.clone())), conv: |h, ta| if !ta { Ok(boxed(h.to_sync())) } else { Err(h) }, shared: [g_send_async, g_probe, g_capopt]);
 imp!(mpmc::RendezvousAsyncReceiver<V>, 'r', true, mutno, [g_recv_async, g_probe, g_capopt], [f_recv],
-  clone: |h| Some(boxed(h.clone())), conv: |h, ta| if !ta { Ok(boxed(h.to_sync())) } else { Err(h) });
+  clone: |h| Some(boxed(h.clone())), conv: |h, ta| if !ta { Ok(boxed(h.to_sync())) } else { Err(h) }, shared: [g_recv_async, g_probe, g_capopt]);
 
 // ---------------------------------------------------------------- spmc broadcast
 imp!(spmc::BoundedSyncSender<V>, 's', false, mutyes, [g_send_sync, g_bsend_sync, g_probe, g_cap], [],
-  clone: no_clone, conv: |h, ta| if ta { Ok(boxed(h.to_async())) } else { Err(h) });
+  clone: no_clone, conv: |h, ta| if ta { Ok(boxed(h.to_async())) } else { Err(h) }, shared: [g_cap]);
 imp!(spmc::BoundedSyncReceiver<V>, 'r', false, mutyes, [g_recv_sync, g_timeout, g_brecv_sync, g_probe, g_cap], [],
-  clone: |h| Some(boxed(h.clone())), conv: |h, ta| if ta { Ok(boxed(h.to_async())) } else { Err(h) });
+  clone: |h| Some(boxed(h.clone())), conv: |h, ta| if ta { Ok(boxed(h.to_async())) } else { Err(h) }, shared: [g_recv_sync, g_timeout, g_brecv_sync, g_probe, g_cap]);
 imp!(spmc::BoundedAsyncSender<V>, 's', true, mutyes, [g_send_async, g_bsend_async, g_probe, g_cap], [f_send, f_bsend],
-  clone: no_clone, conv: |h, ta| if !ta { Ok(boxed(h.to_sync())) } else { Err(h) });
+  clone: no_clone, conv: |h, ta| if !ta { Ok(boxed(h.to_sync())) } else { Err(h) }, shared: [g_cap]);
 imp!(spmc::BoundedAsyncReceiver<V>, 'r', true, mutno, [g_recv_async, g_brecv_async, g_probe, g_cap], [f_recv, f_brecv],
-  clone: |h| Some(boxed(h.clone())), conv: |h, ta| if !ta { Ok(boxed(h.to_sync())) } else { Err(h) });
+  clone: |h| Some(boxed(h.clone())), conv: |h, ta| if !ta { Ok(boxed(h.to_sync())) } else { Err(h) }, shared: [g_recv_async, g_brecv_async, g_probe, g_cap]);
 
 // ---------------------------------------------------------------- oneshot
 impl H for W<oneshot::Sender<V>> {
